@@ -157,6 +157,8 @@ class FunctionContract:
     expect_loops = None       # structural fingerprint: number of loops in the function
     force_symbolic = False
     nl_mode = "nra"
+    budget_s = 600
+    job_budget_s = 900
 
     def shims(self):
         return {}
@@ -219,6 +221,9 @@ def run_contract(cls, tier="quick", seed=0, exclusions=None):
     cases = fc.cases(tier)
     for case in cases:
         fc.case = case
+        if time.time() - t0 > fc.job_budget_s:
+            res["crashed"] = "job budget of %d s exhausted before case %s" % (fc.job_budget_s, case)
+            break
         try:
             _run_symbolic(fc, res, tier, exclusions or [])
         except Unsupported as e:
@@ -255,6 +260,7 @@ def _run_symbolic(fc, res, tier, exclusions):
     if fc.rlimit:
         E.rlimit = fc.rlimit
     E.nl_mode = fc.nl_mode
+    E.budget_s = fc.budget_s
     Engine.current = E
     holder = {}
 
@@ -306,7 +312,15 @@ def _run_symbolic(fc, res, tier, exclusions):
                         ob = E.prove("%s:raises.%s" % (fc.name, cname), zbool(c), assume_after=False)
                         _attach(ob, fc, a, E)
 
-    paths = E.explore(thunk, on_path)
+    try:
+        paths = E.explore(thunk, on_path)
+    except Unsupported:
+        _collect(fc, res, E, holder, E.paths)
+        raise
+    _collect(fc, res, E, holder, paths)
+
+
+def _collect(fc, res, E, holder, paths):
     # attach inputs for in-body obligations (models were taken at the failing point)
     a = holder.get("a")
     for ob in E.obligations:
